@@ -23,15 +23,64 @@ def wake_fn(F):
     return c[0]
 
 
+class _Role(tuple):
+    """(owning type path, field name); compares equal to nothing else — use is_field()"""
+
+
+def is_field(x, role):
+    return x[0] == "field" and x[2] == role[1] and role[0] in (x[4] or "")
+
+
 def wakefd_fields(F):
-    """(descriptor field, method field) of the owning type, located by type"""
-    a = F.adt(WAKEFD)
-    fs = a["variants"][0]["fields"]
-    fd = [f["name"] for f in fs if f["ty"] == "i32"]
-    me = [f["name"] for f in fs if f["ty"].endswith("WakeMethod")]
+    """(descriptor role, method role) of the owning type, located by type — in WakeFd itself or in a private struct of the module it wraps
+    (`WakeFd(Waker { fd, method })`)"""
+    adts = {a["path"]: a for c, a in F.crate_items("adts")}
+    fd = []; me = []
+
+    def visit(path, depth=0):
+        a = adts.get(path)
+        if a is None or len(a["variants"]) != 1 or depth > 2:
+            return
+        for f in a["variants"][0]["fields"]:
+            if f["ty"] == "i32":
+                fd.append(_Role((path, f["name"])))
+            elif f["ty"].endswith("WakeMethod"):
+                me.append(_Role((path, f["name"])))
+            elif f["ty"].startswith("signal_hook::low_level::pipe::") and f["ty"] in adts:
+                visit(f["ty"], depth + 1)
+    if WAKEFD not in adts:
+        raise AnchorLost("type %s" % WAKEFD)
+    visit(WAKEFD)
     if len(fd) != 1 or len(me) != 1:
         raise AnchorLost("WakeFd: one RawFd field and one WakeMethod field expected, found %s / %s" % (fd, me))
     return fd[0], me[0]
+
+
+def method_of_construction(F, fl, rv, at, mef):
+    """expressions of the wake method a WakeFd aggregate is built with (looking into a nested private struct if there is one)"""
+    out = []
+
+    def dig(e, owner, depth=0):
+        e = deep_strip(e)
+        if e[0] != "agg" or e[1][0] != "adt" or depth > 2:
+            return
+        try:
+            a = F.adt(e[1][1])
+        except AnchorLost:
+            return
+        for k, sub in enumerate(e[2]):
+            fname = a["variants"][0]["fields"][k]["name"] if k < len(a["variants"][0]["fields"]) else str(k)
+            if e[1][1] == mef[0] and fname == mef[1]:
+                out.append(deep_strip(sub))
+            else:
+                dig(sub, e[1][1], depth + 1)
+    fields = rv["fields"]
+    if rv["def"] == mef[0] and mef[1] in fields:
+        return [deep_strip(e) for e in fl.operand(rv["ops"][fields.index(mef[1])], at)]
+    for o in rv["ops"]:
+        for e in fl.operand(o, at):
+            dig(e, rv["def"])
+    return out
 
 
 def owner_builders(F):
@@ -128,9 +177,7 @@ def c13b(F):
         for (bb, si, rv) in adt_constructions(m, WAKEFD):
             if m.blocks[bb].get("dead"):
                 continue
-            fields = rv["fields"]
-            mi = fields.index(mef)
-            meth = [deep_strip(e) for e in fl.operand(rv["ops"][mi], (bb, si))]
+            meth = method_of_construction(F, fl, rv, (bb, si), mef)
             is_write = (not meth) or any(not (e[0] == "agg" and e[1][0] == "adt" and e[1][2] == "Send") and
                                          not (e[0] == "const" and e[4] == "Send") for e in meth)
             n_sites += 1
@@ -143,12 +190,17 @@ def c13b(F):
             for (b2, tgt, lab, exprs, t2) in switch_edges(m):
                 for e in exprs:
                     e = deep_strip(e)
-                    if e[0] == "discr" and any(deep_strip(e[1]) == mm or (deep_strip(e[1])[0] == "field" and deep_strip(e[1])[2] == mef) for mm in meth):
+                    if e[0] == "discr" and any(deep_strip(e[1]) == mm or is_field(deep_strip(e[1]), mef) for mm in meth):
                         # which variant index is Send?
                         send_vi = _variant_index(F, "signal_hook::low_level::pipe::WakeMethod", "Send")
                         val = int(lab[3:]) if lab.startswith("sw:") else None
                         if val is not None and val == send_vi:
                             drop.add((b2, tgt))
+                        elif val is None:
+                            # the otherwise edge stands for Send when every other variant has its own edge (`if let Write = method {..}`)
+                            allv = {v_.get("discr", i_) for i_, v_ in enumerate(F.adt("signal_hook::low_level::pipe::WakeMethod")["variants"])}
+                            if allv - {v for v, _ in t2["vals"]} == {send_vi}:
+                                drop.add((b2, tgt))
             for (cb, csi, crv) in clos:
                 if m.blocks[cb].get("dead") or cb not in cfg.reachable(m, bb, unwind=False):
                     continue
@@ -184,7 +236,7 @@ def c13b(F):
                     while base[0] in ("ref", "deref"):
                         base = deep_strip(base[1])
                     ctl.append(base)
-            good = [b_ for b_ in ctl if (b_[0] == "field" and b_[2] == mef and WAKEFD in (b_[4] or "")) or b_[0] == "param"]
+            good = [b_ for b_ in ctl if is_field(b_, mef) or b_[0] == "param"]
             res.append((bool(good), "write-under-recorded-method@%s" % keyname(m.name), "write() in the wake path is selected by the method recorded in the WakeFd", t["sp"],
                         {"controlling_values": [show(b_) for b_ in ctl]}))
             for b_ in good:
@@ -196,7 +248,7 @@ def c13b(F):
                 for k in mparams[t["f"]]:
                     ex = [deep_strip(e) for e in flow(n).term_arg(bb, k - 1)]
                     okm = bool(ex) and all((e[0] == "agg" and e[1][0] == "adt" and e[1][2] == "Send") or (e[0] == "const" and e[4] == "Send") or
-                                           (e[0] == "field" and e[2] == mef and WAKEFD in (e[4] or "")) or (e[0] == "param" and m.kind != "closure") for e in ex)
+                                           is_field(e, mef) or (e[0] == "param" and m.kind != "closure") for e in ex)
                     res.append((okm, "wake-caller@%s" % keyname(m.name), "caller passes the constant send method or the method recorded in its WakeFd", t["sp"],
                                 {"method": [show(e) for e in ex]}))
     _b_cache[id(F)] = res
@@ -212,67 +264,102 @@ def _variant_index(F, adt, name):
 
 
 def nonblock_write_established(ctx, F, m, bb):
-    """used by C03.a for the write() call site inside the wake primitive"""
-    try:
-        w = wake_fn(F)
-    except AnchorLost as e:
-        return False, str(e)
-    if m.id != w.id:
-        return False, "write() outside the self-pipe wake primitive"
+    """used by C03.a for a write() call site in the dispatch cone: fine if the frame belongs to the wake path (a wake frame or a helper
+    inlined into one) and C13.b holds"""
+    from .. import inline
+    members = set()
+    for fr, n in wake_frames(F):
+        members.add(fr.id); members |= set(inline.all_inlined(n))
+    if m.id not in members:
+        return False, "write() outside the self-pipe wake path"
     res = c13b(F)
     bad = [r for r in res if not r[0]]
     return (not bad), ({"failed": [r[1] for r in bad]} if bad else None)
 
 
+def _const_len(n, e):
+    """constant value of a length expression: a literal, or `.len()` of a fixed-size array"""
+    v = fold(e)
+    if v is not None:
+        return v
+    e = deep_strip(e)
+    if e[0] == "call" and (e[3] or "").endswith("::len"):
+        t = n.term(e[1])
+        for a in t["args"][:1]:
+            if a["k"] in ("copy", "move"):
+                mm = re.search(r"\[u8; (\d+)\]", n.local_ty(a["p"]["l"]))
+                if mm:
+                    return int(mm.group(1))
+        for x in flow(n).term_arg(e[1], 0):
+            x = deep_strip(x)
+            while x[0] in ("ref", "cast", "deref"):
+                x = deep_strip(x[1])
+            if x[0] == "const" and x[3]:
+                mm = re.search(r"\[u8; (\d+)\]", x[3])
+                if mm:
+                    return int(mm.group(1))
+    return None
+
+
 def rule_a(ctx):
     F = ctx.F
     rid = "C13.a"
-    ctx.rule(rid, "the wake primitive makes exactly one call in {write, send} on every path, outside any loop, with length "
-                  "constant 1, send carrying MSG_DONTWAIT; every wake action reaches it exactly once per invocation", floor=6)
-    w = wake_fn(F)
-    ctx.fn(w)
-    sites = call_sites(F, w, lambda ci: ci.kind == "foreign" and ci.symbol in ("write", "send", "sendto", "sendmsg", "writev"))
-    okk, why = exactly_once(w, [b for b, _, _ in sites])
-    ctx.check(okk, rid, "wake:once", "exactly one write/send per wake on every path", w.span, why)
-    for (bb, t, ci) in sites:
-        ln = [fold(e) for e in flow(w).term_arg(bb, 2)]
-        ctx.check(ln and all(v == 1 for v in ln), rid, "wake:len:%s" % ci.symbol, "%s length is the constant 1" % ci.symbol, t["sp"],
-                  {"length": [show(e) for e in flow(w).term_arg(bb, 2)]})
-        if ci.symbol == "send":
-            fl = [fold(e) for e in flow(w).term_arg(bb, 3)]
-            ctx.check(fl and all(v is not None and v & MSG_DONTWAIT for v in fl), rid, "wake:dontwait",
-                      "send carries MSG_DONTWAIT", t["sp"], {"flags": [show(e) for e in flow(w).term_arg(bb, 3)]})
-        elif ci.symbol != "write":
-            ctx.bad(rid, "wake:prim:%s" % ci.symbol, "unexpected write primitive %s" % ci.symbol, t["sp"])
-        ctx.analysed["call_sites"] += 1
-    # chain from each action root down to the primitive: exactly one call per frame
-    from ..anchors import action_instances
-    from ..effects import Cone
-    cone = Cone(F, [a for a, _ in action_instances(F)])     # frames below the action roots (not the dispatcher and its helpers)
-    reaches = set()
-    callers = F.callers()
-    st = [w.id]
-    while st:
-        x = st.pop()
-        if x in reaches:
+    ctx.rule(rid, "every frame of the wake path (action closures, write-end trait methods, pipe::wake — helpers inlined) makes exactly one "
+                  "write()/send() — or one call of such a frame — on every path, outside any loop; length is the constant 1, send carries MSG_DONTWAIT", floor=6)
+    frames = wake_frames(F)
+    WR = lambda ci: ci.kind == "foreign" and ci.symbol in ("write", "send", "sendto", "sendmsg", "writev")
+    wakers = set()
+    for m, n in frames:
+        if [1 for (bb, t, ci) in call_sites(F, n, WR) if [fold(e) for e in flow(n).term_arg(bb, 0)] != [2]]:
+            wakers.add(m.id)
+    grow = True
+    while grow:
+        grow = False
+        for m, n in frames:
+            if m.id in wakers:
+                continue
+            for bb, t in n.calls():
+                f = t.get("f")
+                if f is None:
+                    continue
+                c = F.inst[f]
+                tg = [f] if c.kind != "virtual" else [tid for tid, _ in (c.impls or [])]
+                if tg and any(x in wakers for x in tg):
+                    wakers.add(m.id); grow = True; break
+    nfr = 0
+    for m, n in frames:
+        if m.id not in wakers:
             continue
-        reaches.add(x)
-        for (cid, k, bb) in callers.get(x, []):
-            if cid in cone.parent and cid not in reaches:
-                st.append(cid)
-    n = 0
-    for fid in sorted(reaches):
-        fi = F.inst[fid]
-        if fi.body is None or fid == w.id or not fi.local or is_user_code(fi):
-            continue
-        blocks = [bb for bb, t in fi.calls() if t.get("f") in reaches or
-                  (t.get("f") is not None and F.inst[t["f"]].kind == "virtual" and any(tid in reaches for tid, _ in F.inst[t["f"]].impls or []))]
-        okk, why = exactly_once(fi, blocks)
-        # conditional actions are not wake actions; only frames that call it on some path are listed
-        ctx.check(okk, rid, "wake-chain:%s" % keyname(fi.name), "%s reaches the wake primitive exactly once per invocation" % fi.name, fi.span, why)
-        ctx.fn(fi); n += 1
-    if n < 4:
-        raise AnchorLost("expected >= 4 frames between the wake actions and the wake primitive, found %d" % n)
+        nfr += 1
+        ctx.fn(m)
+        fl = flow(n)
+        blocks = []
+        for (bb, t, ci) in call_sites(F, n, WR):
+            if [fold(e) for e in fl.term_arg(bb, 0)] == [2]:
+                continue          # message before abort
+            blocks.append(bb)
+            ln = [_const_len(n, e) for e in fl.term_arg(bb, 2)]
+            ctx.check(bool(ln) and all(v == 1 for v in ln), rid, "wake:len:%s@%s" % (ci.symbol, keyname(m.name)), "%s length is the constant 1" % ci.symbol, t["sp"],
+                      {"length": [show(e) for e in fl.term_arg(bb, 2)]})
+            if ci.symbol == "send":
+                fv = [fold(e) for e in fl.term_arg(bb, 3)]
+                ctx.check(bool(fv) and all(v is not None and v & MSG_DONTWAIT for v in fv), rid, "wake:dontwait@%s" % keyname(m.name),
+                          "send carries MSG_DONTWAIT", t["sp"], {"flags": [show(e) for e in fl.term_arg(bb, 3)]})
+            elif ci.symbol != "write":
+                ctx.bad(rid, "wake:prim:%s" % ci.symbol, "unexpected write primitive %s" % ci.symbol, t["sp"])
+            ctx.analysed["call_sites"] += 1
+        for bb, t in n.calls():
+            f = t.get("f")
+            if f is None or f == m.id:
+                continue
+            c = F.inst[f]
+            tg = [f] if c.kind != "virtual" else [tid for tid, _ in (c.impls or [])]
+            if tg and all(x in wakers for x in tg):
+                blocks.append(bb)
+        okk, why = exactly_once(n, blocks)
+        ctx.check(okk, rid, "wake-chain:%s" % keyname(m.name), "%s wakes exactly once per invocation" % m.name.split("::")[-1][:70], m.span, why)
+    if nfr < 4:
+        raise AnchorLost("expected >= 4 frames on the wake path, found %d" % nfr)
 
 
 def rule_b(ctx):
@@ -297,7 +384,7 @@ def rule_c(ctx):
             continue
         for (bb, t, ci) in call_sites(F, m, foreign("close")):
             ex = flow(m).term_arg(bb, 0)
-            owned = any(mentions(e, lambda x: x[0] == "field" and x[2] == fdf and WAKEFD in (x[4] or "")) for e in ex)
+            owned = any(mentions(e, lambda x: is_field(x, fdf)) for e in ex)
             raw_param = m.defp == "signal_hook::low_level::pipe::register_raw" and any(mentions(e, lambda x: x[0] == "param") for e in ex)
             in_cone = m.id in dispatch_cone(F).parent
             if owned or raw_param or in_cone:
@@ -342,11 +429,17 @@ def wake_frames(F):
     cone = dispatch_cone(F)
     roots = {(r.id if hasattr(r, "id") else r) for r in cone.roots}
     out = []
+    h_id = None
+    try:
+        from ..anchors import handler
+        h_id = handler(F).id
+    except AnchorLost:
+        pass
     for m in cone.members:
-        if not (m.local and m.body is not None) or is_user_code(m) or m.crate != "signal_hook":
+        if not (m.local and m.body is not None) or is_user_code(m) or m.id == h_id:
             continue
-        if m.id in roots or keep_for(F, m)(m):
-            out.append((m, NF(F, m)))
+        if m.id in roots or (m.crate == "signal_hook" and keep_for(F, m)(m)):
+            out.append((m, NF(F, m, cross=True)))
     return out
 
 
@@ -396,7 +489,7 @@ def rule_d(ctx):
                     x = deep_strip(x[1])
                 if x[0] == "call" and ((x[3] or "").endswith("AsRawFd::as_raw_fd") or _returns_live_fd(F, n, x)):
                     how.append("as_raw_fd() at wake time"); continue
-                if x[0] == "field" and x[2] == fdf and WAKEFD in (x[4] or ""):
+                if is_field(x, fdf):
                     how.append("WakeFd's descriptor field"); continue
                 if x[0] == "param" and m.kind != "closure":
                     how.append("parameter (checked at the callers)"); continue
